@@ -153,6 +153,7 @@ class Walker:
         self.lin = {}            # accumulator -> {dof offset: P (roles: S)}
         self.lin_lines = {}
         self.lin_maps = {}
+        self.lin_g = {}          # accumulator -> {guards: {dof offset: P}}
         for k, v in self.consts.items():
             self.env[k] = P.const(Fraction(repr(v)))
 
@@ -530,6 +531,12 @@ class Walker:
         e.array = arr
         e.index = [self.nf(i) for i in idxs]
         e.index_nodes = idxs
+        e.index_polys = []
+        for i in idxs:
+            try:
+                e.index_polys.append(self.ev(i))
+            except (Unsupported, NonMonomialDivision):
+                e.index_polys.append(None)
         e.value = v
         e.node = st
         e.line = st.lineno
@@ -616,6 +623,8 @@ class Walker:
             if unresolved:
                 self.issue('stale-index', st, '%s: series factor uses an index that is not the amplitude index' % name)
             lin[off] = lin.get(off, P()) + res
+            lg = self.lin_g.setdefault(name, {}).setdefault(tuple(self.guards), {})
+            lg[off] = lg.get(off, P()) + res
             self.lin_maps.setdefault(name, []).append((fdef, mapping, st.lineno))
         self.env[name] = tot
 
